@@ -18,7 +18,9 @@ impl Query for Literal {
     fn process<'a, T: Queryable>(&self, state: State<'a, T>) -> State<'a, T> {
         let val = match self {
             Literal::Int(v) => (*v).into(),
-            Literal::Float(v) => (*v).into(),
+            // a literal beyond the range of f64 (`1e400`) is read as an infinity, which is not a JSON
+            // value (serde_json turns it into null): it stands for the largest finite double
+            Literal::Float(v) => v.clamp(f64::MIN, f64::MAX).into(),
             Literal::String(v) => v.as_str().into(),
             Literal::Bool(v) => (*v).into(),
             Literal::Null => T::null(),
